@@ -119,6 +119,17 @@ _frame_re = re.compile(r"^\s+#(\d+) 0x[0-9a-f]+ in (\S+) (\S+)")
 _frame_re2 = re.compile(r"^\s+#(\d+) 0x[0-9a-f]+ in (\S+)")
 
 
+_op_re = re.compile(r"in op_(\w+) ")
+
+
+def _via_op(lines):
+    for ln in lines:
+        m = _op_re.search(ln)
+        if m:
+            return "via_" + m.group(1)
+    return "?"
+
+
 def _lib_frames(lines, repo_src):
     """function names of frames inside the repository sources, innermost
     first, consecutive duplicates (inlining) removed"""
@@ -171,7 +182,7 @@ def parse_reports(text_lines, repo_src=None):
                     elif seen:
                         break
                 fr = _lib_frames(first, repo_src)
-                key = "asan:%s:%s" % (kind, ":".join(fr[:2]) or "?")
+                key = "asan:%s:%s" % (kind, ":".join(fr[:2]) or _via_op(block))
                 reports.append(dict(tool=tool, kind=kind, key=key,
                                     text="\n".join(block[:60])))
             else:
@@ -190,10 +201,11 @@ def parse_reports(text_lines, repo_src=None):
                     if not blk[0].startswith("Direct"):
                         continue
                     fr = _lib_frames(blk, repo_src)
-                    keys.add("lsan:leak:%s" % (":".join(fr[:2]) or "?"))
+                    keys.add("lsan:leak:%s" % (":".join(fr[:2]) or _via_op(blk)))
                 if not keys and blocks:
                     fr = _lib_frames(blocks[0], repo_src)
-                    keys.add("lsan:leak:%s" % (":".join(fr[:2]) or "?"))
+                    keys.add("lsan:leak:%s" % (":".join(fr[:2]) or
+                                               _via_op(blocks[0])))
                 for k in sorted(keys):
                     reports.append(dict(tool=tool, kind="leak", key=k,
                                         text="\n".join(block[:80])))
@@ -534,10 +546,12 @@ class Check:
             print("  %-40s %s" % (k, self.counters[k]))
         if self.inconclusive:
             print("  inconclusive:", self.inconclusive)
-        if self.harness_errors:
+        if self.harness_errors and not new:
             print("HARNESS-ERROR:", self.harness_errors[:3])
             sys.exit(2)
         if new:
+            if self.harness_errors:
+                print("HARNESS-ERROR (in addition):", self.harness_errors[:3])
             for key, v in new:
                 print("  violation key=%s count=%d\n    %s" % (
                     key, v["count"], v["desc"][:1500].replace("\n", "\n    ")))
